@@ -120,12 +120,13 @@ example : Gen.IntegerHelper.c2_to_signed (Gen.IntegerHelper.signed_to_c2 (-128) 
 
 /-! ### (2) FixedPoint -/
 
-theorem fx_ctor0 (f : FixedPoint.Fmt) (hiw : 1 ≤ f.iw) : ∃ r, FixedPoint.intToFixedPoint f 0 = some r := by
+theorem fx_ctor0 (f : FixedPoint.Fmt) (hiw : 0 ≤ f.iw) : ∃ r, FixedPoint.intToFixedPoint f 0 = some r := by
   unfold FixedPoint.intToFixedPoint
-  have h1 : ¬ (f.iw - 1 < 0) := by omega
-  have h2 : ¬ ((0:Int) > Py.shlT 1 (f.iw - 1)) := by
-    have h := two_pow_pos_int (f.iw - 1).toNat
-    have e : Py.shlT 1 (f.iw - 1) = (2:Int)^(f.iw - 1).toNat := by simp [Py.shlT, Py.shl]
+  have h1 : ¬ (f.iw < 0) := by omega
+  have h2 : ¬ ((0:Int) > Py.shrT (Py.shlT 1 f.iw) 1) := by
+    have h := two_pow_pos_int f.iw.toNat
+    have e : Py.shrT (Py.shlT 1 f.iw) 1 = (2:Int)^f.iw.toNat / 2 := by
+      simp [Py.shlT, Py.shl, Py.shrT, Py.shr, Int.shiftRight_eq_div_pow]
     rw [e]; omega
   simp [h1, h2]
 
@@ -133,27 +134,29 @@ theorem fx_mask (f : FixedPoint.Fmt) (w : Nat) (hwd : FixedPoint.width f = w) (x
     Py.land x (FixedPoint.mask f) = x % (2:Int)^w := by
   unfold FixedPoint.mask; rw [hwd]; exact land_maskT x w
 
-/-- `add` on raw encodings is the sum modulo `2^w`, for every format with `iw ≥ 1` and ALL Python ints `a`, `b` -/
-theorem fx_add_spec (f : FixedPoint.Fmt) (w : Nat) (hwd : FixedPoint.width f = w) (hiw : 1 ≤ f.iw) (a b : Int) :
+/-- `add` on raw encodings is the sum modulo `2^w`, for EVERY format (`iw ≥ 0`, Q0.n included since repo commit b11b379) and
+    ALL Python ints `a`, `b` -/
+theorem fx_add_spec (f : FixedPoint.Fmt) (w : Nat) (hwd : FixedPoint.width f = w) (hiw : 0 ≤ f.iw) (a b : Int) :
     FixedPoint.add f a b = some ((a + b) % (2:Int)^w) := by
   obtain ⟨r, hr⟩ := fx_ctor0 f hiw
   simp [FixedPoint.add, hr, fx_mask f w hwd]
 
-theorem fx_sub_spec (f : FixedPoint.Fmt) (w : Nat) (hwd : FixedPoint.width f = w) (hiw : 1 ≤ f.iw) (a b : Int) :
+theorem fx_sub_spec (f : FixedPoint.Fmt) (w : Nat) (hwd : FixedPoint.width f = w) (hiw : 0 ≤ f.iw) (a b : Int) :
     FixedPoint.sub f a b = some ((a - b) % (2:Int)^w) := by
   obtain ⟨r, hr⟩ := fx_ctor0 f hiw
   simp [FixedPoint.sub, hr, fx_mask f w hwd]
 
-/-- `mult`: the product of the SIGNED readings of both raw encodings, truncated (floor) by `fw` bits, modulo `2^w` -/
+/-- `mult`: the product of the SIGNED readings of both raw encodings, truncated (floor) by `fw` bits, modulo `2^w`;
+    every format of total width `w ≥ 1` (for `w = 0` `signExtend(v, 0, 0)` raises) -/
 theorem fx_mult_spec (f : FixedPoint.Fmt) (w fw : Nat) (hwd : FixedPoint.width f = w) (hfw : f.fw = fw)
-    (hiw : 1 ≤ f.iw) (hsw : 0 ≤ f.sw) (a b : Int) :
+    (hiw : 0 ≤ f.iw) (hsw : 0 ≤ f.sw) (hw1 : 1 ≤ w) (a b : Int) :
     FixedPoint.mult f a b = some ((c2Signed w a * c2Signed w b) / (2:Int)^fw % (2:Int)^w) := by
   obtain ⟨r, hr⟩ := fx_ctor0 f hiw
   have hww : (w : Int) = f.sw + f.iw + (fw : Int) := by rw [← hwd, ← hfw]; rfl
-  have hw1 : 1 ≤ w := by omega
   have hle : fw ≤ w := by omega
   have e2 : ((w : Int) * 2) = ((2 * w : Nat) : Int) := by simp; omega
-  simp only [FixedPoint.mult, hr, hwd, hfw, e2, bind, Option.bind, pure, fx_mask f w hwd,
+  have hw1' : ¬ ((w : Int) < 1) := by omega
+  simp only [FixedPoint.mult, hr, hwd, hfw, e2, bind, Option.bind, pure, fx_mask f w hwd, hw1', if_false,
     signExtend_spec _ w (2*w) hw1 (by omega)]
   have e3 : ∀ X : Int, Py.shrT X (fw : Int) = X / (2:Int)^fw := by
     intro X; simp [Py.shrT, Py.shr, Int.shiftRight_eq_div_pow]
@@ -165,10 +168,13 @@ theorem fx_mult_spec (f : FixedPoint.Fmt) (w fw : Nat) (hwd : FixedPoint.width f
     rw [this, Int.pow_add ((2:Int)) (fw + w) (w - fw)]; exact Int.dvd_mul_right _ _
   rw [Int.mul_emod, Int.emod_emod_of_dvd _ hdvd, Int.emod_emod_of_dvd _ hdvd, ← Int.mul_emod]
 
-/-- FULL STATEMENT (all formats) is false of the code: with `int_bits = 0` every operation raises
-    (`FixedPoint(sw, 0, fw, 0)` evaluates `1 << -1`).  `fx_*_spec` above are the `_partial` versions under `1 ≤ iw`. -/
-theorem fx_iw0_counterexample :
-    FixedPoint.add ⟨1, 0, 7⟩ 1 2 = none ∧ FixedPoint.sub ⟨1, 0, 7⟩ 1 2 = none ∧ FixedPoint.mult ⟨1, 0, 7⟩ 1 2 = none := by
+/-- formats without integer bits work (repo commit b11b379).  Q0.7 with sign: 0.25 + 0.5 = 0.75, 0.25 − 0.5 = −0.25, 0.25 · 0.5 = 0.125.
+    Before that commit `FixedPoint(sw, 0, fw, 0)` evaluated `1 << -1`: all three operations raised (model: `none`) — the former
+    `fx_iw0_counterexample`; `fx_*_spec` then carried `1 ≤ iw`. -/
+theorem fx_iw0_works :
+    FixedPoint.add ⟨1, 0, 7⟩ 0x20 0x40 = some 0x60 ∧ FixedPoint.sub ⟨1, 0, 7⟩ 0x20 0x40 = some 0xE0 ∧
+    FixedPoint.mult ⟨1, 0, 7⟩ 0x20 0x40 = some 0x10 ∧
+    FixedPoint.intToFixedPoint ⟨1, 0, 7⟩ 0 = some 0 ∧ FixedPoint.intToFixedPoint ⟨1, 0, 7⟩ 1 = none := by
   decide
 
 -- non-vacuity: Q3.4 with sign: 1.5 · (−0.5) = −0.75 ; 7.9375 + 0.0625 wraps to −8
